@@ -201,15 +201,26 @@ def r09_2(rep: Report, idx: Index) -> None:
                  'are built from different option vectors', cg)
     else:
         rep.ok(rid, f'{MC}::ManifestContext.calculate_cgi_parameters', 'patch query carries every other option')
-    for c_ in ast.walk(patch_src):
-        if isinstance(c_, ast.Call) and isinstance(c_.func, ast.Attribute) and c_.func.attr == 'union' and c_.args:
-            arg = c_.args[0]
-            if isinstance(arg, ast.Call) and norm(arg.func) in ('frozenset', 'set') and arg.args:
-                arg = arg.args[0]
-            try:
-                excl |= set(ast.literal_eval(arg))
-            except Exception:
-                pass
+    # the names the patch query leaves out: the value of `exclude=` at that call, as a set of constants
+    # (term evaluation of calculate_cgi_parameters: set displays, union / update, local copies), minus
+    # what every other parameter set leaves out as well
+    from ..termeval import TermEval, UNKNOWN_MEMBER
+    ev = TermEval({})
+    seen_excl: dict[int, object] = {}
+
+    def observe(call, env):
+        if (call_name(call) or '').endswith('generate_cgi_parameters'):
+            kwv = next((k.value for k in call.keywords if k.arg == 'exclude'), None)
+            seen_excl[id(call)] = ev.eval(kwv, env) if kwv is not None else set()
+    ev.observe = observe
+    ev.run(cg, {})
+    ev.observe = None
+    mine = seen_excl.get(id(patch_src))
+    if not isinstance(mine, (set, frozenset)) or UNKNOWN_MEMBER in mine:
+        raise AnalysisError('calculate_cgi_parameters: the exclude set of the patch parameters is not a set of constants')
+    others = [v for k, v in seen_excl.items() if k != id(patch_src) and isinstance(v, (set, frozenset))]
+    common = set.intersection(*[set(o) for o in others]) if others else set()
+    excl |= set(mine) - common
     c = f'{MQ}::ServePatch.get'
     if forced and forced_cgi == excl and all(v == 'True' for v in forced.values()):
         rep.ok(rid, c, 'forced options == excluded query names', f'{sorted(forced)} / {sorted(excl)}')
